@@ -14,9 +14,9 @@ CHECKS = {
  "C06": dict(level="model_checking", tech="TLA+ facet spec Retry.tla + TLC-generated histories replayed on the real library (virtual time) + TLC trace validation",
              text="The retry policy (budget servers x tries plus the protocol-mandated resends, requeue on error rcodes / timeouts / connection failures, EDNS downgrade and TCP upgrade outside the budget, per-attempt wait between the learned/configured base timeout and the configured maximum, definite completion status) is an explicit TLA+ spec including the latency-bucket base-timeout computation; every recorded transmission, server-state notification, completion and ares_timeout() value of every generated history is validated by TLC against it; UBSan observes the arithmetic clause.",
              note="Trusted: TLC, harness recording, virtual clock hook. Scope: send/query entry points; histories with connection-open failures, partial TCP writes, several packets per processing call or multi-server removal are judged only up to that point (counted in evidence).", ref="4/C06"),
- "C07": dict(level="model_checking", tech="TLA+ facet spec Retry.tla (deadline intervals, hint soundness, overdue processing) + TLC-generated histories with virtual time + TLC trace validation; event-thread half by Threads specs",
-             text="Single-threaded half: after every outermost API call the value of ares_timeout() (with and without a caller maximum) is checked against the deadline interval the spec derives for every in-flight query, and every processing call at or after a deadline must retry or fail the query; histories enumerated by TLC over arrival times, retries and several outstanding deadlines.",
-             note="Trusted: TLC, harness, virtual clock. The event-thread half of C07 (no application action needed) is decided by checks/c07_thr.py when present.", ref="4/C07"),
+ "C07": dict(level="model_checking", tech="TLA+ facet spec Retry.tla (deadline intervals, hint soundness, overdue processing) + TLC-generated histories with virtual time + TLC trace validation; event-thread half: EvLoop.tla/Threads.tla (TLC safety + liveness) + real event thread on all backends at TLC-named phases, phase/sync traces validated by TLC (ThreadsTrace.tla)",
+             text="Single-threaded half: after every outermost API call the value of ares_timeout() (with and without a caller maximum) is checked against the deadline interval the spec derives for every in-flight query, and every processing call at or after a deadline must retry or fail the query; histories enumerated by TLC over arrival times, retries and several outstanding deadlines. Event-thread half: the event loop as coded (when the wake pipe is written, how the sleep is computed) is modelled in EvLoop.tla and must satisfy NoOutwait and pending ~> done under TLC; on the real library every backend x connection-reuse situation x arrival phase (request issued while the loop computes its timeout / waits / is woken / processes, and with an already overdue deadline) is run with a silent server: the request must complete within its retry budget and the recorded phase trace must satisfy ThreadsTrace.tla (planned sleep never beyond the earliest pending deadline).",
+             note="Trusted: TLC, harness, virtual clock (single-threaded half); wall clock with a 100 ms tolerance and loopback sockets (event-thread half, epoll/poll/select only). Two defects found by the event-thread half were repaired (known_findings.d/C07_THR.json, fixed).", ref="4/C07"),
  "C09": dict(level="model_checking", tech="TLA+ facet spec Retry.tla (server health, selection, probes, list edits) + TLC-generated histories + TLC trace validation",
              text="Server selection (fresh attempts go to the first / a random member of the least-failed class, success restores, failure/timeout demotes, probe copies only to failed servers past their retry delay and never instead of the user's query, list edits keep health of surviving servers and re-order) is part of the explicit TLA+ spec; destination of every transmission and the public server-state callback stream of every generated history are validated by TLC.",
              note="Trusted: TLC, harness. Random draws are existential (a legal draw must exist).", ref="4/C09"),
